@@ -121,7 +121,7 @@ func c18Worker(c *core.Collector, x *Ctx) {
 		go func(h int) {
 			defer wg.Done()
 			defer func() { <-sem }()
-			_, _, _, nops := c11History(srv, c, c.Seed, 900000+x.Batch*1000+h, 8000000+x.Batch*100000+h*10)
+			_, _, _, nops := c11History(srv, c, c.Seed, 900000+x.Batch*1000+h, 8000000+x.Batch*100000+h*10, false)
 			c.Evals(1)
 			c.Count("registry_histories", 1)
 			c.Count("registry_operations", int64(nops))
